@@ -39,3 +39,56 @@ def run(ctx):
     return ctx.finish(rule="random hal programs over families " + ",".join(FAMILIES) + "; 4 back ends; n in {8,16,32,64}; sizes/rows/cols 1..6 incl. mismatched; "
                            "value classes random/max/min/alternating/sparse/zero at digit widths up to the FFT64 magnitude limit; distinct = (family, back end, n, class, op, limb_offset, cnv_offset, step); "
                            "non-trivial = implementation answer ok and contains a non-zero value")
+
+
+# ---------------------------------------------------------------------------------------------
+# NTT120 integer arithmetic (slice extension, appended): the same `run`, with the `ntt120`
+# correspondence gate (vlib/ntt120gen.py) executed before the evidence is written.
+_run_hal_programs = run
+
+
+def run(ctx):
+    from . import ntt120gen
+    finish = ctx.finish
+
+    def finish_with_ntt120(level="proof", rule="", extra=None):
+        binp = ctx.build_harness()
+        drv = ctx.driver()
+        if binp is not None and drv is not None:
+            broken = ntt120gen.gate(ctx, binp, drv)
+            if broken and not ctx.violations:
+                ctx.violation("C07 NTT120 correspondence no longer checks", {"broken": broken[:20]}, False)
+        ctx.cov["hal_generator_domain_checks"] = {"fft64": domain["fft64"], "ntt120": domain["ntt120"], "outside": len(domain["outside"])}
+        if domain["outside"]:
+            ctx.violation("hal generator picked a digit width outside the documented magnitude domain", {"cases": domain["outside"][:10]}, False)
+        ctx.assumptions[:] = [a for a in ctx.assumptions if not a.startswith("FFT64 rounding error")] + [
+            "FFT64: rounding error < 1/2 inside the documented magnitude domain is tied by correspondence only (IEEE-754 code, not proved)",
+            "NTT120: the butterfly network (ntt_ref / intt_ref) is a ring isomorphism Z_q[X]/(X^n+1) -> Z_q^n with inverse — hypothesis "
+            "`Ntt120.NttIsRingIso` of the pipeline theorems, tied by correspondence only; everything around it (residues, CRT, lazy "
+            "accumulation, reductions) is proved",
+        ]
+        return finish(level=level, rule=(rule + " || " + ntt120gen.RULE) if rule else ntt120gen.RULE, extra=extra)
+
+    ctx.finish = finish_with_ntt120
+    # the magnitude domain of the hal generator, checked rather than informal: every digit width picked by
+    # halgen.pick_bits is re-checked against the predicate of C07.generator_in_fft64_domain (FFT64: 4·n·rows·2^(2(bits-1)) ≤ 2^50)
+    # resp. the NTT120 exactness bound of C07.ntt120_crt_exact ((Q-1)/2)
+    domain = {"fft64": 0, "ntt120": 0, "outside": []}
+    pick = halgen.pick_bits
+
+    def checked_pick_bits(rng, n, rows_flat, be):
+        bits = pick(rng, n, rows_flat, be)
+        mag = 4 * n * rows_flat * (1 << (bits - 1)) ** 2
+        fam = "fft64" if be.startswith("fft64") else "ntt120"
+        lim = (1 << 50) if fam == "fft64" else (ntt120gen.bigq(30) - 1) // 2
+        domain[fam] += 1
+        if mag > lim:
+            domain["outside"].append({"be": be, "n": n, "rows": rows_flat, "bits": bits})
+        return bits
+
+    halgen.pick_bits = checked_pick_bits
+    try:
+        rc = _run_hal_programs(ctx)
+    finally:
+        halgen.pick_bits = pick
+    return rc
